@@ -17,7 +17,12 @@ func idField() *fl.FieldDef { return &fl.FieldDef{Name: "id", Type: fl.NonNull(f
 // ConfigMono: one subgraph, no entities -- the layout of "defer on non entity field" in
 // execution_engine_defer_test.go (Query.user: User!, User.info: Info!), widened by nullable
 // variants, lists, an interface and a union so that defers can sit in lists and under abstract types.
-func ConfigMono() *fl.Config {
+func ConfigMono() *fl.Config { return configMono(false) }
+
+// ConfigGrid: ConfigMono plus Query.grid: [[User]] (a list of lists).
+func ConfigGrid() *fl.Config { return configMono(true) }
+
+func configMono(grid bool) *fl.Config {
 	super := &fl.Schema{Query: "Query", Types: []*fl.TypeDef{
 		{Kind: fl.KObject, Name: "Query", Fields: []*fl.FieldDef{
 			{Name: "user", Type: fl.NonNull(fl.Named("User"))},
@@ -27,7 +32,6 @@ func ConfigMono() *fl.Config {
 			{Name: "node", Type: fl.Named("Node")},
 			{Name: "nodes", Type: fl.ListOf(fl.NonNull(fl.Named("Node")))},
 			{Name: "things", Type: fl.ListOf(fl.Named("Thing"))},
-			{Name: "grid", Type: fl.ListOf(fl.ListOf(fl.Named("User")))},
 		}},
 		{Kind: fl.KInterface, Name: "Node", Fields: []*fl.FieldDef{idField()}},
 		{Kind: fl.KObject, Name: "User", Implements: []string{"Node"}, Fields: []*fl.FieldDef{
@@ -57,9 +61,15 @@ func ConfigMono() *fl.Config {
 		}},
 		{Kind: fl.KUnion, Name: "Thing", Members: []string{"User", "Pet"}},
 	}}
+	rootFields := []string{"user", "me", "users", "team", "node", "nodes", "things"}
+	if grid {
+		q := super.Types[0]
+		q.Fields = append(q.Fields, &fl.FieldDef{Name: "grid", Type: fl.ListOf(fl.ListOf(fl.Named("User")))})
+		rootFields = append(rootFields, "grid")
+	}
 	return &fl.Config{Super: super, Subgraphs: []*fl.Subgraph{
 		{Name: "first", Unions: []string{"Thing"}, Types: []*fl.SubType{
-			{Name: "Query", Fields: fields("user", "me", "users", "team", "node", "nodes", "things", "grid")},
+			{Name: "Query", Fields: fields(rootFields...)},
 			{Name: "Node", Fields: fields("id")},
 			{Name: "User", Fields: fields("id", "name", "title", "nick", "info", "alt", "friends", "pet")},
 			{Name: "Info", Fields: fields("email", "phone", "addr")},
@@ -153,7 +163,7 @@ func ConfigFed() *fl.Config {
 	}}
 }
 
-var ConfigNames = []string{"mono", "entity", "fed"}
+var ConfigNames = []string{"mono", "entity", "fed", "grid"}
 
 func ConfigByName(n string) *fl.Config {
 	switch n {
@@ -163,6 +173,8 @@ func ConfigByName(n string) *fl.Config {
 		return ConfigEntity()
 	case "fed":
 		return ConfigFed()
+	case "grid":
+		return ConfigGrid()
 	}
 	return nil
 }
